@@ -127,4 +127,18 @@ def assignV2 (cr dp : Fixed64 → Fixed64) (powMode : Bool) (total : Fixed64)
   let two := [Out.mk rewardCR a0, Out.mk rewardMiner minerAddr]
   if lt 0 rewardDpos then two ++ [Out.mk rewardDpos dposAddr] else two
 
+/-! ### the oldest coinbase rule, heights [0, PublicDPOSHeight) -/
+
+/-- AssignCoinbaseTxRewards, last branch: CR part `Fixed64(float64(total)*0.3)`, miner part
+    `Fixed64(float64(total)*0.35)` (truncating conversions, parameters `tr30 tr35`), the rest to the
+    foundation address as a third output -/
+def assignLegacy (tr30 tr35 : Fixed64 → Fixed64) (total : Fixed64) (crAddr minerAddr fndAddr : Addr) : List Out :=
+  let rewardCR := tr30 total
+  let rewardMiner := tr35 total
+  [Out.mk rewardCR crAddr, Out.mk rewardMiner minerAddr, Out.mk (total - rewardCR - rewardMiner) fndAddr]
+
+/-- checkCoinbaseTransactionContext, last branch: `Σ outputs − totalTxFee == GetBlockReward(h)` -/
+def coinbaseLegacyCheck (fees reward : Fixed64) (outs : List Out) : Bool :=
+  sumW (outs.map (·.value)) - fees == reward
+
 end ElaVerif.Reward
